@@ -12,6 +12,7 @@ from specs import prox as pspec
 
 class Selection(SxContract):
     """zero_rows: features whose (skip-)weight row is exactly zero (and, for the MLP, whose first-layer row is zero)."""
+    float_replay = True
     max_paths = 5000
 
     def __init__(self, family, n, d, K, zero_rows, h=2, w1_zero=()):
